@@ -18,7 +18,7 @@ TECHNIQUE = ('exhaustive enumeration of small public datasets (all multisets of 
              'PublicInference; weights/frame validity and harness-recomputed loss against the uniformly weighted public data')
 RULE = ('case = (public multiset, private data, structure, query kind, sigma, total mode, history); public datasets: ALL non-empty multisets of <= 3 records '
         'over the 6 cells of (A:2,B:3) (83), incl. ones disjoint from the private support; structures {A}, {AB}, {A,B}, {AB,B}; kinds identity/prefix; '
-        'sigma {0.5,2}; totals {1, N, None}; histories: second estimate call on the same object with every other structure (validity clauses). '
+        'sigma {0.5,2}; totals {1, N, None}, given totals spelled as float/int/numpy scalar types (rotated); histories: second estimate call on the same object with every other structure (validity clauses). '
         'states = (object, history) nodes, transitions = estimate calls; non-trivial = >= 2 public records; distinct = digest of the case.')
 LEVEL_TEXT = ('Every public dataset of the small scope is reweighted against every measurement configuration of the alphabet; the returned weights must be '
               'finite, nonnegative, one per public record, sum to the given or independently estimated total, leave the public records unchanged, '
@@ -39,6 +39,7 @@ PRIVATE = {
 }
 # extra (private, sigma) regimes: near-exact measurements of large counts (residual/sigma^2 ~ 1e10: every trial step overshoots
 # until the step size is ~1e-10) and noise-dominated measurements of a tiny dataset (the linear total estimate is negative)
+TOTAL_TYPES = ['float', 'np.int64', 'int', 'np.float32', 'np.float64', 'np.int32']
 EXTREME = [('p4', 1e-4), ('p4', 1e-5), ('p2', 60.0)]
 
 
@@ -106,7 +107,7 @@ def ref_total(dense):
     return max(1.0, float(np.sum(w * np.array(est)) / np.sum(w)))
 
 
-def check_result(pub, frame0, est, dense, T, fit_clause, what):
+def check_result(pub, frame0, est, dense, T, fit_clause, what, sum_rtol=1e-9):
     from mbi import Dataset
     fails = []
     if not isinstance(est, Dataset):
@@ -120,14 +121,14 @@ def check_result(pub, frame0, est, dense, T, fit_clause, what):
         return fails
     if w.min() < 0:
         fails.append(('negative', '%s: negative weight %.3g' % (what, w.min())))
-    if abs(w.sum() - T) > 1e-9 * max(1.0, T):
+    if abs(w.sum() - T) > sum_rtol * max(1.0, T):
         fails.append(('sum', '%s: weights sum to %.12g, expected total %.12g' % (what, w.sum(), T)))
     if list(est.df.columns) != ATTRS or not np.array_equal(est.df.values, frame0):
         fails.append(('frame-changed', '%s: the returned records differ from the public records' % what))
     if fit_clause:
         f = weighted_loss(pub, w, dense)
         fu = weighted_loss(pub, np.ones(len(pub)) * T / len(pub), dense)
-        if f > fu * (1 + 1e-9) + 1e-12:
+        if f > fu * (1 + max(1e-9, 10 * sum_rtol if sum_rtol > 1e-9 else 0)) + 1e-12:
             fails.append(('worse-than-uniform', '%s: loss %.10g of the reweighted data is worse than the uniformly weighted public data %.10g' % (what, f, fu)))
     return fails
 
@@ -157,6 +158,12 @@ def run_public(acc, pi, tier, seed, only=None):
                     continue
                 total = {'1': 1.0, 'N': N, 'None': None}[tmode]
                 T = total if total is not None else ref_total(dense)
+                # a supplied total may be spelled as any real scalar type (rotated over the configurations)
+                ttype = 'float'
+                if total is not None:
+                    ttype = TOTAL_TYPES[(k_ + 2 * pi + len(priv)) % len(TOTAL_TYPES)] if only is None else only.get('ttype', 'float')
+                    total = {'float': float, 'int': int, 'np.int64': np.int64, 'np.int32': np.int32, 'np.float32': np.float32, 'np.float64': np.float64}[ttype](total)
+                sum_rtol = 1e-6 if ttype == 'np.float32' else 1e-9    # single-precision total: honoured to single precision
                 # every third configuration: the public dataset carries weights of its own (a 0/1 mask); the reference of the
                 # property is still the UNIFORMLY weighted public data
                 pubw = np.array([float((i_ + pi) % 2) for i_ in range(len(pub))]) if (k_ % 3 == 0 and len(pub) >= 2) else None
@@ -164,12 +171,12 @@ def run_public(acc, pi, tier, seed, only=None):
                 eng = PublicInference(data)
                 with M.quiet():
                     est = eng.estimate([(Q.copy(), y.copy(), s, cl) for Q, y, s, cl in ms], total=total)
-                case = {'pi': pi, 'public': pub, 'priv': priv, 'struct': struct, 'kind': kind, 'sigma': sigma, 'total': tmode, 'second': None, 'seed': seed, 'tier': tier}
+                case = {'pi': pi, 'public': pub, 'priv': priv, 'struct': struct, 'kind': kind, 'sigma': sigma, 'total': tmode, 'ttype': ttype, 'second': None, 'seed': seed, 'tier': tier}
                 acc.case(case, nontrivial=len(pub) >= 2)
                 acc.states += 1
                 acc.transitions += 1
                 acc.traces += 1
-                fails = check_result(pub, frame0, est, dense, T, True, 'first call')
+                fails = check_result(pub, frame0, est, dense, T, True, 'first call (total given as %s)' % ttype, sum_rtol)
                 acc.outcome('fresh:%s' % ('ok' if not fails else 'FAIL'))
                 for kd, msg in fails:
                     acc.violate(case, {'kind': kd, 'call': 1}, 'public %r, %s/%s/sigma=%g/total=%s: %s' % (pub, struct, kind, sigma, tmode, msg))
@@ -183,14 +190,17 @@ def run_public(acc, pi, tier, seed, only=None):
                         # rebuild the first call's state by replaying it (objects are cheap)
                         eng2 = PublicInference(Dataset(pd.DataFrame(frame0.copy(), columns=ATTRS), dom))
                         with M.quiet():
-                            eng2.estimate([(Q.copy(), y.copy(), s, cl) for Q, y, s, cl in ms], total=total)
-                            est2 = eng2.estimate(ms2, total=total)
+                            # the caller keeps ONE list object and replaces its contents between the calls
+                            lst = [(Q.copy(), y.copy(), s, cl) for Q, y, s, cl in ms]
+                            eng2.estimate(lst, total=total)
+                            lst[:] = list(ms2)
+                            est2 = eng2.estimate(lst, total=total)
                         c2 = dict(case, second=s2)
                         acc.case(c2, nontrivial=len(pub) >= 2)
                         acc.states += 1
                         acc.transitions += 2
                         acc.traces += 1
-                        fails = check_result(pub, frame0, est2, dense2, T2, False, 'second call (%s after %s)' % (s2, struct))
+                        fails = check_result(pub, frame0, est2, dense2, T2, False, 'second call (%s after %s, same list object refilled)' % (s2, struct), sum_rtol)
                         acc.outcome('second:%s' % ('ok' if not fails else 'FAIL'))
                         for kd, msg in fails:
                             acc.violate(c2, {'kind': kd, 'call': 2}, 'public %r: %s' % (pub, msg))
